@@ -1103,8 +1103,14 @@ class EventBus:
                 still_running = [task for task, _handler in handler_tasks.values() if not task.done()]
                 for task in still_running:
                     task.cancel()
-                if still_running:
-                    await asyncio.wait(still_running)
+                while still_running:
+                    try:
+                        await asyncio.wait(still_running)
+                    except asyncio.CancelledError:
+                        # a further cancellation (e.g. another enclosing timeout) while the siblings are still unwinding:
+                        # they are cancelled already, keep waiting for them instead of abandoning them mid-cleanup
+                        pass
+                    still_running = [task for task in still_running if not task.done()]
                 raise
         else:
             # otherwise, execute handlers serially, wait until each one completes before moving on to the next
